@@ -68,7 +68,7 @@ func idExactnessRule(c *Ctx) {
 		call := d.CallsIn(dg.Node(pv), parseInt, false)[0]
 		b, ok1 := d.ConstInt(call.Args[1])
 		bits, ok2 := d.ConstInt(call.Args[2])
-		if ok1 && ok2 && b == 10 && bits == 64 && d.Mentions(call.Args[0], d.Param("raw")) {
+		if ok1 && ok2 && b == 10 && bits == 64 && len(d.NonRecvParams()) == 1 && d.Mentions(call.Args[0], d.NonRecvParams()[0]) {
 			for _, r := range d.Returns() {
 				if len(r.Results) == 2 {
 					if ce, ok := ast.Unparen(r.Results[0]).(*ast.CallExpr); ok && d.Callee(ce) != nil && d.Callee(ce).Name() == "Int64ID" && dg.Dominates(pv, dg.VertexOf(r)) {
@@ -136,14 +136,14 @@ func rulesC19(c *Ctx) {
 			out := map[string]string{}
 			for _, w := range Writes(f.Body, false) {
 				if s, ok := ast.Unparen(w.LHS).(*ast.SelectorExpr); ok && w.RHS != nil {
-					out[s.Sel.Name] = exprStr(w.RHS)
+					out[s.Sel.Name] = canonExpr(f, w.RHS)
 				}
 			}
 			return out
 		}
 		rq, rs := marshalSets("Request"), marshalSets("Response")
-		c.Check(rq["ID"] == "msg.ID.value" && rq["Method"] == "msg.Method" && rq["Params"] == "msg.Params" && len(rq) == 3, "Request.marshal:fields", nil, nil, "a request is encoded from exactly ID, Method, Params (%v)", rq)
-		c.Check(rs["ID"] == "msg.ID.value" && rs["Result"] == "msg.Result" && strings.HasPrefix(rs["Error"], "toWireError(") && len(rs) == 3, "Response.marshal:fields", nil, nil, "a response is encoded from exactly ID, Result, Error (%v)", rs)
+		c.Check(rq["ID"] == "Request.ID.value" && rq["Method"] == "Request.Method" && rq["Params"] == "Request.Params" && len(rq) == 3, "Request.marshal:fields", nil, nil, "a request is encoded from exactly ID, Method, Params (%v)", rq)
+		c.Check(rs["ID"] == "Response.ID.value" && rs["Result"] == "Response.Result" && rs["Error"] == "toWireError(Response.Error)" && len(rs) == 3, "Response.marshal:fields", nil, nil, "a response is encoded from exactly ID, Result, Error (%v)", rs)
 		// decode side: composite literals in DecodeMessage
 		dm := c.Fn(pJ, "", "DecodeMessage")
 		got := map[string]map[string]string{}
@@ -159,16 +159,16 @@ func rulesC19(c *Ctx) {
 			m := map[string]string{}
 			for _, el := range cl.Elts {
 				if kv, ok := el.(*ast.KeyValueExpr); ok {
-					m[exprStr(kv.Key)] = exprStr(kv.Value)
+					m[exprStr(kv.Key)] = canonExpr(dm, kv.Value)
 				}
 			}
 			got[nt.Obj().Name()] = m
 		})
-		c.Check(got["Request"]["ID"] == "id" && got["Request"]["Method"] == "method" && got["Request"]["Params"] == "msg.Params" && len(got["Request"]) == 3, "DecodeMessage:request-fields", dm, nil, "a decoded request takes ID, Method, Params from the wire (%v)", got["Request"])
-		c.Check(got["Response"]["ID"] == "id" && got["Response"]["Result"] == "msg.Result", "DecodeMessage:response-fields", dm, nil, "a decoded response takes ID and Result from the wire (%v)", got["Response"])
+		c.Check(got["Request"]["ID"] == "local(jsonrpc2.ID)" && got["Request"]["Method"] == "local(string)" && got["Request"]["Params"] == "wireDecode.Params" && len(got["Request"]) == 3, "DecodeMessage:request-fields", dm, nil, "a decoded request takes ID, Method, Params from the wire (%v)", got["Request"])
+		c.Check(got["Response"]["ID"] == "local(jsonrpc2.ID)" && got["Response"]["Result"] == "wireDecode.Result", "DecodeMessage:response-fields", dm, nil, "a decoded response takes ID and Result from the wire (%v)", got["Response"])
 		okErr := false
 		for _, w := range Writes(dm.Body, false) {
-			if s, ok := ast.Unparen(w.LHS).(*ast.SelectorExpr); ok && s.Sel.Name == "Error" && w.RHS != nil && exprStr(w.RHS) == "msg.Error" {
+			if s, ok := ast.Unparen(w.LHS).(*ast.SelectorExpr); ok && s.Sel.Name == "Error" && w.RHS != nil && canonExpr(dm, w.RHS) == "wireDecode.Error" {
 				okErr = true
 			}
 		}
@@ -177,12 +177,20 @@ func rulesC19(c *Ctx) {
 		tw := c.Fn(pJ, "", "toWireError")
 		keepsSelf, keepsCode := false, false
 		for _, r := range tw.Returns() {
-			if len(r.Results) == 1 && exprStr(r.Results[0]) == "err" {
-				keepsSelf = true
+			if len(r.Results) == 1 && isNamedType(tw.TypeOf(r.Results[0]), modPath+"/"+pJ, "WireError") {
+				// the value returned unchanged is the type-asserted parameter
+				if v := tw.ObjOf(r.Results[0]); v != nil && v == typeAssertVar(tw, pJ, "WireError") {
+					keepsSelf = true
+				}
 			}
 		}
 		for _, w := range Writes(tw.Body, false) {
-			if exprStr(w.LHS) == "result.Code" && w.RHS != nil && exprStr(w.RHS) == "wrapped.Code" {
+			ls, ok1 := ast.Unparen(w.LHS).(*ast.SelectorExpr)
+			if w.RHS == nil || !ok1 {
+				continue
+			}
+			rs, ok2 := ast.Unparen(w.RHS).(*ast.SelectorExpr)
+			if ok2 && ls.Sel.Name == "Code" && rs.Sel.Name == "Code" && isNamedType(tw.TypeOf(ls.X), modPath+"/"+pJ, "WireError") && isNamedType(tw.TypeOf(rs.X), modPath+"/"+pJ, "WireError") {
 				keepsCode = true
 			}
 		}
@@ -642,4 +650,35 @@ func typeHasStruct(t types.Type, seen map[types.Type]bool, depth int) bool {
 		return true // unknown instantiation: assume it can be a struct
 	}
 	return false
+}
+
+// typeAssertVar returns the value variable of `x, ok := v.(*rel.name)` in f's own body.
+func typeAssertVar(f *Func, rel, name string) types.Object {
+	var out types.Object
+	inspectNoLit(f.Body, func(n ast.Node) {
+		as, ok := n.(*ast.AssignStmt)
+		if !ok || len(as.Lhs) != 2 || len(as.Rhs) != 1 {
+			return
+		}
+		if ta, ok := ast.Unparen(as.Rhs[0]).(*ast.TypeAssertExpr); ok && ta.Type != nil && isNamedType(f.TypeOf(ta.Type), modPath+"/"+rel, name) {
+			out = f.ObjOf(as.Lhs[0])
+		}
+	})
+	return out
+}
+
+// canonExpr renders an expression independently of variable names: selector chains start at the
+// root's type, locals are rendered by type, calls by callee name and canonical arguments.
+func canonExpr(f *Func, e ast.Expr) string {
+	e = ast.Unparen(e)
+	if ce, ok := e.(*ast.CallExpr); ok {
+		if fn := f.Callee(ce); fn != nil && !(fn.Pkg() != nil && fn.Pkg().Path() == "context") {
+			var as []string
+			for _, a := range ce.Args {
+				as = append(as, canonExpr(f, a))
+			}
+			return fn.Name() + "(" + strings.Join(as, ", ") + ")"
+		}
+	}
+	return f.FieldPath(e)
 }
